@@ -429,6 +429,9 @@ func (c *Conn) OpenDownstream(ctx context.Context, filters []*message.Downstream
 		revAliases     = make(map[message.DataID]uint32, len(downconf.DataIDs))
 	)
 	for _, v := range downconf.DataIDs {
+		if _, ok := revAliases[*v]; ok {
+			continue // listed twice: a data id has one alias
+		}
 		aliases[aliasGenerator.Next()] = v
 		revAliases[*v] = aliasGenerator.CurrentValue()
 	}
